@@ -24,3 +24,8 @@
     __CPROVER_loop_invariant(i <= stop) \
     __CPROVER_loop_invariant(ghost_g < i ==> self->data8[ghost_g] == (unsigned char)self->data32[ghost_g]) \
     __CPROVER_decreases(stop - i)
+#define LOOP_address_array__expand32to64_1 \
+    __CPROVER_assigns(i, __CPROVER_object_whole(self->data64)) \
+    __CPROVER_loop_invariant(i <= self->size) \
+    __CPROVER_loop_invariant(ghost_g < i ==> self->data64[ghost_g] == self->data32[ghost_g]) \
+    __CPROVER_decreases(self->size - i)
